@@ -108,18 +108,32 @@ def solve_path(rep, prog):
         args = solved[0].as_atom()[1:]
         ok = len(args) == 2 and args[0] == coef and args[1] == rhs
     rep.ob('R01.solve', 'system', ok, f'_solution_vector = {sv!r:.260}', site)
-    # fallback discipline
-    raises = [n for n in ast.walk(fn) if isinstance(n, ast.Raise)]
-    tries = [n for n in ast.walk(fn) if isinstance(n, ast.Try)]
-    guards_before = []
-    for st in fn.body:
-        if isinstance(st, ast.Try): break
-        if isinstance(st, ast.If): guards_before.append(st)
-    in_try_extra = [s for t in tries for s in t.body if not (isinstance(s, ast.Assign) and isinstance(s.value, ast.Call) and ast.unparse(s.value.func).endswith('solve'))]
-    okf = not raises and not guards_before and not in_try_extra and len(tries) == 1
+    # fallback discipline, checked in the function that holds the call of the solver (the method itself or a helper it delegates to)
+    holders = []
+    cands = [(mem[0], fn)] + [(prog.mod(ms), prog.mod(ms).defs.get(nm)) for ms, nm in ev.calls if isinstance(prog.mod(ms).defs.get(nm), ast.FunctionDef)]
+    for cm, cf in cands:
+        if any(isinstance(n, ast.Call) and ast.unparse(n.func).split('.')[-1] == 'solve' for n in ast.walk(cf)): holders.append((cm, cf))
+    if not holders:
+        rep.ob('R01.solve', 'fallback-only-from-solver', None, 'no call of a linear solver found on the path of __post_init__', site); return
+    cm, cf = holders[0]
+    raises = [n for n in ast.walk(cf) if isinstance(n, ast.Raise)]
+    tries = [n for n in ast.walk(cf) if isinstance(n, ast.Try) and any(isinstance(x, ast.Call) and ast.unparse(x.func).split('.')[-1] == 'solve' for b_ in n.body for x in ast.walk(b_))]
+    def is_fallback(stmt):
+        return any(isinstance(x, ast.Call) and ast.unparse(x.func).split('.')[-1] in ('zeros', 'zeros_like') for x in ast.walk(stmt))
+    bad = []
+    # (1) nothing but the solve (and plain bindings) inside the try; (2) no raise; (3) zero fallbacks only in the handler or under an isnan test
+    for t_ in tries:
+        for s_ in t_.body:
+            if not (isinstance(s_, (ast.Assign, ast.Return, ast.Expr)) and not any(isinstance(x, (ast.If, ast.Raise)) for x in ast.walk(s_))): bad.append(s_)
+    handler_nodes = {id(x) for t_ in tries for h in t_.handlers for x in ast.walk(h)}
+    for n in ast.walk(cf):
+        if isinstance(n, ast.If):
+            guarded_fallback = any(is_fallback(x) for x in n.body)
+            if guarded_fallback and id(n) not in handler_nodes and 'isnan' not in ast.unparse(n.test): bad.append(n)
+    okf = not raises and not bad and len(tries) == 1
     rep.ob('R01.solve', 'fallback-only-from-solver', okf,
            'the zero fallback is reached only through an exception of np.linalg.solve or a NaN result' if okf else
-           f'additional ways into the all-zero fallback: {[ast.unparse(x)[:70] for x in raises + guards_before + in_try_extra][:3]} -- a well-posed but badly scaled network is reported as all zeros', site)
+           f'additional ways into the all-zero fallback: {[ast.unparse(x)[:70] for x in raises + bad][:3]} -- a well-posed but badly scaled network is reported as all zeros', prog.site(cm, cf))
 
 
 def _preds(space):
